@@ -136,9 +136,12 @@ func (e *enc) loadHook(b *ssa.BasicBlock, i *ssa.UnOp, result string) {
 		return
 	}
 	what := typeShort(pt) + "." + st.Field(fa.Field).Name()
-	if arr, _ := e.fieldArr(pt, st, fa.Field); e.w.immutableArr(arr) {
+	_, isMap := i.Type().Underlying().(*types.Map)
+	_, isSlice := i.Type().Underlying().(*types.Slice)
+	if arr, _ := e.fieldArr(pt, st, fa.Field); (isMap || isSlice) && e.w.immutableArr(arr) {
 		// the field itself is only written while its object is under construction: reading the
-		// reference needs no lock, what it refers to (below) does
+		// reference to the container needs no lock, its contents (tainted below) do. For pointers and
+		// interfaces the read of the field stands for the use of the object behind it and keeps its obligation.
 	} else {
 		e.guardObl(i, e.reach[b], lock, what, false, ref)
 	}
